@@ -463,7 +463,7 @@ def tour():
                 pre = list(REPLACEMENT) if ("replace:7" in op or "swap:7" in op) else []
                 if ("replace:7" in op or "swap:7" in op) and len(cfg) > 1:
                     pre = pre + ["clone 8 7"]
-                hs.append(["reset"] + mk + cfg + pre + [op, "isUnique 0", "drop 1", "isUnique 0", "dropAll"])
+                hs.append(["reset"] + mk + cfg + pre + [op, "isUnique 0", "isUnique 1", "getMut 1 70", "drop 1", "isUnique 0", "dropAll"])
     # comparison / hashing / formatting through every comparable handle type: equal values in another
     # allocation, smaller, larger, other lengths, the same allocation, the other union variant; with 0..2 co-owners
     def second(name, v, extra=""):
